@@ -142,6 +142,16 @@ pub fn g_b256_boundary() -> impl Strategy<Value = Vec<u8>> {
 
 /// length strata 0–8 / 9–40 / 41–300 / 301–3116 with the weights of DESIGN §3.3
 pub fn g_bytes(long_weight: u32) -> BoxedStrategy<(Vec<u8>, &'static str)> {
+    // (nested: a union of more than ten options must not contain a zero weight)
+    prop_oneof![
+        25 => g_bytes_base(long_weight),
+        2 => g_shift_tail().prop_map(|v| (v, "shift-tail")),
+        long_weight => g_capacity_shaped().prop_map(|v| (v, "capacity-shaped")),
+    ]
+    .boxed()
+}
+
+fn g_bytes_base(long_weight: u32) -> BoxedStrategy<(Vec<u8>, &'static str)> {
     prop_oneof![
         3 => g_bytes_len(0, 4, 3, 8).prop_map(|v| (v, "len0-8")),
         4 => g_bytes_len(1, 8, 8, 40).prop_map(|v| (v, "len9-40")),
@@ -266,8 +276,84 @@ pub fn g_homogeneous(max: usize) -> impl Strategy<Value = Vec<u8>> {
 }
 
 /// short / medium inputs only (used where the oracle is quadratic)
+/// A run for one of the three-values-per-two-codewords modes with single characters inside it that need a
+/// shift there (a byte >= 128, the other letter case, punctuation, a control character), the part behind
+/// the last such character being 3m .. 3m+2 characters long, and a tail of 0..=4 digits: the pending-value
+/// bookkeeping of C40 / Text / X12 at the end of the data, with state left over from an earlier character.
+pub fn g_shift_tail() -> impl Strategy<Value = Vec<u8>> {
+    (any::<u8>(), vec((0usize..=12, any::<u8>(), any::<u8>()), 1..=3), 0usize..=5, 0usize..=2, 0usize..=4, any::<u64>()).prop_map(|(base, shifts, m, r, digits, seed)| {
+        let base_class = [1usize, 1, 2, 1][(base % 4) as usize];
+        let rnd = expand(seed, 64);
+        let mut k = 0usize;
+        let mut next = |class: usize| {
+            k += 1;
+            class_char(class, rnd[k % 64])
+        };
+        let mut v = Vec::new();
+        for (before, sc, sv) in shifts {
+            for _ in 0..before {
+                v.push(next(base_class));
+            }
+            let shift_class = [8usize, 8, 3 - base_class, 6, 7, 10][(sc % 6) as usize];
+            v.push(class_char(shift_class, sv));
+        }
+        for _ in 0..3 * m + r {
+            v.push(next(base_class));
+        }
+        for _ in 0..digits {
+            v.push(next(0));
+        }
+        v
+    })
+}
+
+/// Data whose natural encoding in one mode ends 0..=2 codewords below a real symbol capacity (between 3
+/// and 1558): n characters of one class with n computed from the mode's density, and 0..=4 foreign
+/// characters written over random positions.  Decisions between two whole-message encodings that differ
+/// by one codeword (the second Base256 length byte, the "to the end of the symbol" length 0, an unlatch
+/// saved at the end) are made exactly here.
+pub fn g_capacity_shaped() -> impl Strategy<Value = Vec<u8>> {
+    (any::<u16>(), any::<u16>(), 0usize..=2, vec((any::<u16>(), any::<u8>(), any::<u8>()), 0..=4), any::<u64>(), any::<u8>()).prop_map(|(csel, fam, delta, foreign, seed, pos_mode)| {
+        let mut caps: Vec<usize> = SYMBOLS.iter().map(|s| s.data).collect();
+        caps.sort_unstable();
+        caps.dedup();
+        // three quarters of the cases below 460 codewords
+        let cap = if csel % 4 != 0 { caps[pick(csel / 4, caps.iter().filter(|c| **c <= 456).count())] } else { caps[pick(csel / 4, caps.len())] };
+        let room = cap.saturating_sub(delta);
+        let (class, n) = match pick(fam, 8) {
+            0 => (11usize, room),                            // ASCII-only characters, one codeword each
+            1 => (0, 2 * room),                              // digits
+            2 => (1, room.saturating_sub(1) * 3 / 2),        // C40
+            3 => (2, room.saturating_sub(1) * 3 / 2),        // Text
+            4 => (12, room.saturating_sub(1) * 3 / 2),       // X12
+            5 => (5, room.saturating_sub(1) * 4 / 3),        // EDIFACT
+            6 => (8, room.saturating_sub(if room > 251 { 3 } else { 2 })), // Base256
+            _ => (11, room.saturating_sub(2)),               // ASCII-only, the length Base256 would fill exactly
+        };
+        let n = n.clamp(1, 3116);
+        let rnd = expand(seed, n);
+        let mut v: Vec<u8> = (0..n)
+            .map(|i| match class {
+                11 => b"{|}~`{|}"[(rnd[i] % 8) as usize],
+                12 => class_char([1usize, 0, 3][(rnd[i] % 3) as usize], rnd[i] / 3),
+                c => class_char(c, rnd[i]),
+            })
+            .collect();
+        let nf = foreign.len();
+        for (j, (p, fc, fv)) in foreign.into_iter().enumerate() {
+            // first / middle / last positions one time in two, otherwise anywhere
+            let at = if pos_mode & 1 == 0 { [0, n / 2, n - 1, n.saturating_sub(2)][j % 4] } else { pick(p, n) };
+            let fclass = [8usize, 8, 0, 1, 2, 6, 7, 11][(fc % 8) as usize];
+            v[at] = if fclass == 11 { b'~' } else { class_char(fclass, fv) };
+        }
+        let _ = nf;
+        v
+    })
+}
+
 pub fn g_bytes_short() -> BoxedStrategy<(Vec<u8>, &'static str)> {
     prop_oneof![
+        2 => g_shift_tail().prop_map(|v| (v, "shift-tail")),
         4 => g_bytes_len(0, 4, 3, 8).prop_map(|v| (v, "len0-8")),
         5 => g_bytes_len(1, 8, 8, 40).prop_map(|v| (v, "len9-40")),
         2 => g_bytes_len(4, 16, 10, 120).prop_map(|v| (v, "len41-120")),
@@ -459,6 +545,9 @@ pub fn resolve_fit(data: &[u8], modes: u8, macros: bool, fnc1: bool, k: u8) -> u
 /// symbol choice are decided exactly there, and for long inputs (one capacity per ~50 codewords)
 /// fitted lists alone never get that close.  Construction by a probe encode, not rejection.
 pub fn fit_pad(data: &[u8], modes: u8, k: u8) -> Vec<u8> {
+    if modes & 1 == 0 && modes & 62 != 0 && data.len() <= 3000 {
+        return fit_pad_without_ascii(data, modes, k);
+    }
     if modes & 1 == 0 || data.len() > 3000 {
         return data.to_vec();
     }
@@ -486,6 +575,66 @@ pub fn fit_pad(data: &[u8], modes: u8, k: u8) -> Vec<u8> {
     // a separator keeps the pairs from merging with a leading digit of the body
     v.extend_from_slice(data);
     v
+}
+
+/// G-exact for mode sets without ASCII: the filler in front of the data is made of units one of the
+/// enabled modes carries (three C40 / Text / X12 characters = 2 codewords, four EDIFACT characters = 3,
+/// one byte >= 128 in Base256 = 1); because a unit is not one codeword and the filler may change the
+/// plan, the amount is found by repeated probe encodes (at most 8) instead of one subtraction.
+fn fit_pad_without_ascii(data: &[u8], modes: u8, k: u8) -> Vec<u8> {
+    let units: [(u8, &[u8], usize); 5] = [(2, b"ABC", 2), (4, b"abc", 2), (8, b"A1B", 2), (16, b"ABCD", 3), (32, b"\xC1", 1)];
+    let enabled: Vec<&(u8, &[u8], usize)> = units.iter().filter(|u| modes & u.0 != 0).collect();
+    if enabled.is_empty() {
+        return data.to_vec();
+    }
+    let (_, unit, per) = *enabled[(k as usize / 6) % enabled.len()];
+    let slack = (k % 3) as usize;
+    let mut caps: Vec<usize> = SYMBOLS.iter().map(|s| s.data).collect();
+    caps.sort_unstable();
+    caps.dedup();
+    let len_of = |v: &[u8]| -> Option<usize> {
+        let probe = EncCase { data: v.to_vec(), list: ALL_MASK, modes, macros: false, fnc1: false, eci: None, stratum: "probe" };
+        let dm = guard(|| probe.encode()).ok().and_then(|r| r.ok())?;
+        Some(refimpl::codec::ref_decode(dm.data_codewords()).ok()?.unpadded_len())
+    };
+    let Some(len0) = len_of(data) else { return data.to_vec() };
+    let Some(mut target) = caps.iter().filter(|c| **c >= len0 + slack).nth((k / 3 % 2) as usize).map(|c| c - slack) else { return data.to_vec() };
+    let mut n_units = 0usize;
+    let mut cur = data.to_vec();
+    let mut len = len0;
+    for _ in 0..8 {
+        if len == target {
+            break;
+        }
+        if len > target {
+            // overshot: aim at the next capacity
+            match caps.iter().find(|c| **c >= len + slack) {
+                Some(c) => target = c - slack,
+                None => break,
+            }
+            if len == target {
+                break;
+            }
+        }
+        let need = target - len;
+        if need > 400 {
+            break;
+        }
+        n_units += (need / per).max(1);
+        let mut v = Vec::with_capacity(data.len() + n_units * unit.len());
+        for _ in 0..n_units {
+            v.extend_from_slice(unit);
+        }
+        v.extend_from_slice(data);
+        match len_of(&v) {
+            Some(l) => {
+                cur = v;
+                len = l;
+            }
+            None => break,
+        }
+    }
+    cur
 }
 
 // ---------------------------------------------------------------------------------------------
@@ -545,11 +694,72 @@ fn exact_label(stratum: &'static str) -> &'static str {
         "len301-3116" => "len301-3116+exact",
         "eod-shaped" => "eod-shaped+exact",
         "b256-length-boundary" => "b256-length-boundary+exact",
+        "shift-tail" => "shift-tail+exact",
         other => other,
     }
 }
 
+/// Mode sets without ASCII (usually with EDIFACT): a lead segment for one of the other enabled modes with
+/// a length at its group / length-field boundaries, a run of EDIFACT-range characters, a tail of one to
+/// four characters of which at least one is outside the EDIFACT range; three times in four G-exact.  The
+/// end of such data is where the "rest as ASCII" forms are decided from the planner's and the encoder's
+/// own count of the codewords written so far - across every mode switch before.
+pub fn g_noascii_tail_case(short_only: bool) -> BoxedStrategy<EncCase> {
+    (any::<u16>(), any::<u16>(), any::<u16>(), 0usize..=44, vec((any::<u8>(), any::<u8>()), 1..=4), any::<u64>(), any::<u8>(), g_list())
+        .prop_map(move |(msel, lsel, llen, mid, tail, seed, fp, list)| {
+            let others: [u8; 10] = [2, 4, 8, 32, 2 | 4, 2 | 32, 4 | 32, 8 | 32, 2 | 4 | 8 | 32, 4 | 8];
+            let other = others[pick(msel, 10)];
+            let modes = if msel % 5 == 4 && other.count_ones() > 1 { other } else { other | 16 };
+            // the lead is written for one of the other modes
+            let cands: Vec<u8> = [2u8, 4, 8, 32].iter().copied().filter(|m| other & m != 0).collect();
+            let lead_mode = cands[pick(lsel, cands.len())];
+            let lead_len = if lead_mode == 32 {
+                if short_only { [1usize, 2, 3, 5, 8, 11][pick(llen, 6)] } else { [1usize, 2, 3, 5, 249, 250, 251, 252, 250, 255, 11, 500][pick(llen, 12)] }
+            } else {
+                1 + pick(llen, 14)
+            };
+            let rnd = expand(seed, lead_len + mid + 8);
+            let mut data: Vec<u8> = (0..lead_len)
+                .map(|i| match lead_mode {
+                    2 => class_char([1, 0][(rnd[i] & 1) as usize], rnd[i] >> 1),
+                    4 => class_char([2, 0][(rnd[i] & 1) as usize], rnd[i] >> 1),
+                    8 => class_char([1, 0, 3][(rnd[i] % 3) as usize], rnd[i] / 3),
+                    _ => class_char(8, rnd[i]),
+                })
+                .collect();
+            data.extend((0..mid).map(|i| class_char([1, 5, 1, 0][(rnd[lead_len + i] & 3) as usize], rnd[lead_len + i] >> 2)));
+            let n_tail = tail.len();
+            for (i, (c, r)) in tail.into_iter().enumerate() {
+                // the first tail character is never an EDIFACT one
+                let class = if i == 0 || c % 3 != 0 { [2usize, 7, 8, 2, 10][(c % 5) as usize] } else { 5 };
+                let mut ch = class_char(class, r);
+                if i == 0 && (32..=94).contains(&ch) {
+                    ch = b'a' + r % 26;
+                }
+                data.push(ch);
+            }
+            let _ = n_tail;
+            let data = if fp % 4 != 0 { fit_pad(&data, modes, fp / 4) } else { data };
+            let list = match list {
+                ListSpec::Default => default_mask(),
+                ListSpec::All => ALL_MASK,
+                ListSpec::Mask(_) => default_mask(),
+                ListSpec::Fit(k) => resolve_fit(&data, modes, false, false, k),
+            };
+            EncCase { data, list, modes, macros: false, fnc1: false, eci: None, stratum: "noascii-lead-edifact-tail" }
+        })
+        .boxed()
+}
+
 pub fn g_enc_case(o: EncGenOpts) -> BoxedStrategy<EncCase> {
+    prop_oneof![
+        24 => g_enc_case_main(o),
+        1 => g_noascii_tail_case(o.short_only),
+    ]
+    .boxed()
+}
+
+fn g_enc_case_main(o: EncGenOpts) -> BoxedStrategy<EncCase> {
     let data = if o.short_only {
         prop_oneof![
             10 => g_bytes_short(),
